@@ -501,7 +501,8 @@ def parseMatrix (sy : Syms) (s : RS) : R RS := do
         else
           let (t, s) ← nextTok s
           pure (true, { s with btok := t })) { s with btok := t }
-  if s.rows.all (fun x => x.2 == nchar) then
+  if s.rows.length > s.ntax.getD 0 then perr .nexus             -- more sequences than the declared NTAX
+  else if s.rows.all (fun x => x.2 == nchar) then
     pure { s with mats := s.mats ++ [s.rows.map (·.2)], btok := some (kw "MATRIX") }
   else perr .nexus                                           -- the declared-versus-found check
 
